@@ -27,6 +27,8 @@ CONSTANTS Ids,            \* pool of block addresses, 1 .. N
           Sites,          \* call sites (index into SiteFile / SiteLine)
           StrLens,        \* lengths of the strings offered to strdup
           CallocShapes,   \* <<count, element size>> pairs offered to calloc
+          SrcOffsets,     \* offsets inside a tracked source block offered to strdup (0 = its base address)
+          HugeSizes,      \* codes of sizes no allocator can satisfy (-1 = SIZE_MAX, -2 = 2^62, -3 = PTRDIFF_MAX + 1; TLC integers are 32 bit)
           Levels,         \* runtime debug levels explored (one per behaviour)
           Obs(_, _, _, _) \* observation hook (op, args, ret, post-state)
 
@@ -52,7 +54,9 @@ SiteFile(s) ==
 SiteLine(s) == CASE s = 1 -> 7 [] s = 2 -> 4096 [] s = 3 -> 12 [] OTHER -> 70000
 Trunc(f) == SubSeq(f, 1, IF Len(f) < FnameLen THEN Len(f) ELSE FnameLen)       \* S
 
-Req(size, s) == [size |-> size, file |-> Trunc(SiteFile(s)), line |-> SiteLine(s)]
+\* (below the memory level nothing records file and line, so the reference keeps only the size there: fewer states, same claims)
+Req(size, s) == IF level >= MemLevel THEN [size |-> size, file |-> Trunc(SiteFile(s)), line |-> SiteLine(s)]
+                ELSE [size |-> size, file |-> <<>>, line |-> 0]
 NoReq        == [size |-> 0, file |-> <<>>, line |-> 0]
 Rec(i, r)    == [id |-> i, size |-> r.size, file |-> r.file, line |-> r.line]
 
@@ -105,11 +109,12 @@ Targets(p, size) == IF size > 0 /\ p = NULLP THEN Avail
                     ELSE {0}
 
 -------------------------------------------------------------------------------
-View(l, s, tab) == [level |-> l, blocks |-> s, table |-> tab]
-Pre == View(level, st, table)
+\* sizes: the allocator-side size of every live block (observable at every level, tracked or not)
+View(l, s, q, tab) == [level |-> l, blocks |-> s, sizes |-> [i \in Ids |-> IF s[i] = "live" THEN q[i].size ELSE 0], table |-> tab]
+Pre == View(level, st, req, table)
 Step(op, args, r) ==
     /\ st' = r.st /\ req' = r.req /\ table' = r.table /\ level' = level
-    /\ Obs(op, args, r.ret, View(level, r.st, r.table))
+    /\ Obs(op, args, r.ret, View(level, r.st, r.req, r.table))
 
 OpMalloc(t, size, s) ==
     /\ t \in Avail
@@ -117,9 +122,22 @@ OpMalloc(t, size, s) ==
 OpCalloc(t, sh, s) ==
     /\ t \in Avail
     /\ Step("calloc", <<t, sh[1], sh[2], SiteFile(s), SiteLine(s)>>, AllocRes(t, Req(sh[1] * sh[2], s)))
-OpStrdup(t, n, s) ==                                                    \* S: size = length + 1 (NUL copied also)
+\* src = 0: the source string is ordinary memory; src \in Live: the source string sits in (at offset off of) a live TRACKED block
+\* that is larger than the string - where the text comes from must not matter (S: "most recently requested size" = length + 1)
+OpStrdup(t, n, s, src, off) ==                                          \* S: size = length + 1 (NUL copied also)
     /\ t \in Avail
-    /\ Step("strdup", <<t, n, SiteFile(s), SiteLine(s)>>, AllocRes(t, Req(n + 1, s)))
+    /\ \/ src = 0 /\ off = 0
+       \/ src \in Live /\ src # t /\ off \in SrcOffsets /\ req[src].size >= n + 1 + off
+    /\ Step("strdup", <<t, n, SiteFile(s), SiteLine(s), src, off>>, AllocRes(t, Req(n + 1, s)))
+\* A request the allocator REFUSES (size beyond anything it can give: HugeSizes).  S (libc semantics of the untracked macros):
+\* the call yields NULL and nothing else happens - in particular realloc leaves the old block allocated, live and tracked.
+\* Only at runtime level 0: from level 1 on the library's own ASSERT on the NULL result ends the process (C20), outside this model.
+RefusedRes == R(st, req, table, NULLP)
+OpMallocRefused(h, s) == /\ level = 0 /\ Step("malloc", <<0, h, SiteFile(s), SiteLine(s)>>, RefusedRes)
+OpCallocRefused(h, s) == /\ level = 0 /\ Step("calloc", <<0, h, 8, SiteFile(s), SiteLine(s)>>, RefusedRes)
+OpReallocRefused(p, h, s) ==
+    /\ level = 0 /\ p \in {NULLP} \cup Live
+    /\ Step("realloc", <<p, h, 0, SiteFile(s), SiteLine(s)>>, RefusedRes)
 OpRealloc(p, size, s, t) ==
     /\ p \in PtrArgs /\ t \in Targets(p, size)
     /\ Step("realloc", <<p, size, t, SiteFile(s), SiteLine(s)>>, ReallocRes(p, size, s, t))
@@ -134,7 +152,9 @@ Init == /\ level \in Levels
 
 Next == \/ \E t \in Ids, size \in Sizes, s \in Sites : OpMalloc(t, size, s)
         \/ \E t \in Ids, sh \in CallocShapes, s \in Sites : OpCalloc(t, sh, s)
-        \/ \E t \in Ids, n \in StrLens, s \in Sites : OpStrdup(t, n, s)
+        \/ \E t \in Ids, n \in StrLens, s \in Sites, src \in Ids \cup {0}, off \in SrcOffsets \cup {0} : OpStrdup(t, n, s, src, off)
+        \/ \E h \in HugeSizes, s \in Sites : OpMallocRefused(h, s) \/ OpCallocRefused(h, s)
+        \/ \E p \in PtrArgs, h \in HugeSizes, s \in Sites : OpReallocRefused(p, h, s)
         \/ \E p \in PtrArgs, size \in Sizes, s \in Sites, t \in Ids \cup {0} : OpRealloc(p, size, s, t)
         \/ \E p \in PtrArgs : OpFree(p)
         \/ OpDump
@@ -186,6 +206,8 @@ ReallocKeepsOthers ==
        Active => /\ Len(r.table) = Len(table)
                  /\ \A k \in 1 .. Len(table) : IF table[k].id = p THEN r.table[k] = Rec(t, Req(size, s))
                                                                  ELSE r.table[k] = table[k]
+\* S: a refused request changes nothing (the old block of a refused realloc stays live and tracked)
+RefusedChangesNothing == RefusedRes.st = st /\ RefusedRes.table = table /\ RefusedRes.ret = NULLP
 \* the level is a configuration, not something the tracked calls change
 LevelConstant == [][level' = level]_vars
 ================================================================================
